@@ -359,6 +359,7 @@ class IRSpec:
         if len(g.generators) != 1 or gen.ifs: raise Unsupported('generator expression shape')
         def k(s, dom):
             base = len(s.pc)
+            gmark = self.fresh_mark()
             if dom[0] in ('set', 'list'):
                 el = c.fresh('el', c.Ref)
                 member = (dom[1][el]) if dom[0] == 'set' else (c.cnt(dom[1], el) > 0)
@@ -395,6 +396,7 @@ class IRSpec:
                 qv = [Const('q_%s' % b, b.sort()) for b in binders]
                 bd = substitute(body, *zip(binders, qv))
                 return ForAll(qv, bd) if univ else Exists(qv, bd)
+            okT, okF, exc = (self.close_fresh(x_, gmark, keep=binders) for x_ in (okT, okF, exc))
             if excs:
                 sE = s.fork(); sE.pc.append(quant(And(member, exc), False))
                 if se.sat(sE): se.exit(sE, excs[0][1])
@@ -717,6 +719,8 @@ class IRSpec:
             if dom[0] == 'enumcls':
                 return self.unroll_enum(se, s, node, dom, nxt, k_ret)
             spec = LOOPS.get((fr.fi.qual, ordinal))
+            if spec is None and getattr(self, 'pure_loops', False) and dom[0] in ('zip', 'list', 'range'):
+                return self.pure_loop(se, s, node, dom, nxt, k_ret)
             if spec is None:
                 raise Unsupported('no invariant registered for loop %d of %s (iterates %s)' % (ordinal, fr.fi.qual, dom[0]))
             if dom[0] == 'ref':
@@ -726,6 +730,86 @@ class IRSpec:
                 raise Unsupported('loop %d of %s iterates a %s, its invariant was written for a %s' % (ordinal, fr.fi.qual, shape, spec.shape))
             self.cut(se, s, node, spec, dom, shape, ordinal, nxt, k_ret)
         se.ev(st, node.iter, with_dom)
+
+    def close_fresh(self, body, start, keep=()):
+        """existentially close the auxiliary constants the executor introduced while running a body for ONE generic element
+        (truthiness flags, named ite terms, skolems): under the surrounding universal quantifier they depend on the element"""
+        from z3 import is_const, Z3_OP_UNINTERPRETED
+        seen = {}
+        def walk(t):
+            if t.get_id() in seen_ids: return
+            seen_ids.add(t.get_id())
+            if is_const(t) and t.decl().kind() == Z3_OP_UNINTERPRETED:
+                nm = t.decl().name()
+                if '!' in nm:
+                    try: n = int(nm.rsplit('!', 1)[1])
+                    except ValueError: return
+                    if n >= start and not any(t.eq(k_) for k_ in keep): seen[nm] = t
+                return
+            for ch in t.children(): walk(ch)
+            if hasattr(t, 'body') and callable(getattr(t, 'body', None)):
+                try: walk(t.body())
+                except Exception: pass
+        seen_ids = set()
+        walk(body)
+        vs = list(seen.values())
+        return Exists(vs, body) if vs else body
+
+    def fresh_mark(self):
+        import itertools
+        n = next(self.ctx._fresh)
+        return n
+
+    def pure_loop(self, se, st, node, dom, nxt, k_ret):
+        """a loop whose body only checks (asserts, calls of checking functions) and stores nothing: no invariant is needed.
+        The body is executed once for a generic position k; if every path leaves the heap and the enclosing locals untouched,
+        the loop is equivalent to  `for all k in range: the body does not raise`  -- after the loop that fact is assumed, and an
+        exceptional exit of the body for some k is an exceptional exit of the loop."""
+        from z3 import substitute
+        from pyvc.se import SE
+        c = self.ctx
+        k = c.fresh('k', IntSort())
+        mark = self.fresh_mark()
+        if dom[0] == 'zip':
+            a, b = dom[1], dom[2]
+            if a[0] != 'list' or b[0] != 'list': raise Unsupported('zip of %s,%s' % (a[0], b[0]))
+            member = And(k >= 0, k < c.len(a[1]), k < c.len(b[1]))
+            elems = ('tuple', [R(c.at(a[1], k)), R(c.at(b[1], k))])
+            facts = [c.cnt(a[1], c.at(a[1], k)) > 0, c.cnt(b[1], c.at(b[1], k)) > 0]
+        elif dom[0] == 'list':
+            member = And(k >= 0, k < c.len(dom[1])); elems = R(c.at(dom[1], k)); facts = [c.cnt(dom[1], c.at(dom[1], k)) > 0]
+        else:
+            member = And(k >= 0, k < dom[1]); elems = I(k); facts = []
+        sub = SE(c, se.ct, self, se.sat_timeout, se.max_depth)
+        s_in = st.fork(); s_in.env = dict(st.env); s_in.handlers = []
+        s_in.pc.append(member); s_in.pc += facts
+        self.bind_target(s_in, node.target, elems)
+        base = len(s_in.pc)
+        heap0 = dict(s_in.heap)
+        normals = []
+        def body_end(s2):
+            for f_ in heap0:
+                if not s2.heap[f_].eq(heap0[f_]): raise Unsupported('loop body stores to %s: an invariant is needed' % f_)
+            normals.append(list(s2.pc[base:]))
+        sub.block(s_in, node.body, body_end, lambda s2, v: (_ for _ in ()).throw(Unsupported('return inside a checking loop')), None, body_end)
+        se.obligations += sub.obligations
+        for s_, kind, _v in sub.outcomes:
+            for f_ in heap0:
+                if not s_.heap[f_].eq(heap0[f_]): raise Unsupported('loop body stores to %s before raising' % f_)
+        conj = lambda fs: And(fs) if fs else BoolVal(True)
+        ok = Or([conj(pcx) for pcx in normals]) if normals else BoolVal(False)
+        qk = Const('kq_pl%d' % next(c._fresh), IntSort())
+        def quant(body, univ):
+            bd = substitute(self.close_fresh(body, mark), (k, qk))
+            return ForAll([qk], bd) if univ else Exists([qk], bd)
+        kinds = {}
+        for s_, kind, _v in sub.outcomes:
+            kinds.setdefault(kind, []).append(conj(list(s_.pc[base:])))
+        for kind, conds in kinds.items():
+            sE = st.fork(); sE.pc.append(quant(And(member, *facts, Or(conds)), False))
+            if se.sat(sE): se.exit(sE, kind)
+        sN = st.fork(); sN.pc.append(quant(Implies(And(member, *facts) if facts else member, self.close_fresh(ok, mark)), True))
+        if se.sat(sN): nxt(sN)
 
     def unroll_enum(self, se, st, node, dom, nxt, k_ret):
         members = ['UNDEFINED', 'INOUT', 'IN', 'OUT']
